@@ -34,7 +34,7 @@ def nontrivial(s):
     return len(fr) >= 3 and offs != sorted(offs) or len({p["d"] for p in fr}) == 2
 
 
-def sig(scen, kind, detail):
+def sig(scen, kind, detail, rec=None):
     return {"family": "ip-frag", "mode": scen.get("mode"), "kind": kind}
 
 
